@@ -45,7 +45,7 @@ def check(run):
                 npairs += 1
                 acc.check_plain_valid(run, models[pn], models[vn])
         run.floor('SIB.plain-valid', 'plain / null-aware kernel pairs', npairs, 8)
-    if run.tier == 'thorough':
+    if True:    # the algebraic comparison takes a few seconds: part of the quick tier too
         import casrules
         run.rule('CAS.form', casrules.RULE)
         n = casrules.check_rolling(run, run.facts('base'), ('features.rs',))
